@@ -196,8 +196,15 @@ func (w *World) verifyFunc(c *Contract) (res *FnResult) {
 	x.runTop(fn, c)
 	for _, g := range c.Guards {
 		if !x.guardsSeen[g.Name] {
-			res.Err = fmt.Errorf("contract-binding in %s: guard[%s] matches no call site", c.Key, g.Name)
-			return
+			// the guarded call is gone: the guard can no longer be established
+			x.bindFail["guard["+g.Name+"] of "+c.Key+" matches no call site"] = true
+			nm := c.Key + "#guard:" + g.Name
+			if g.Label != "" {
+				nm += ":" + g.Label
+			}
+			x.obls = append(x.obls, &Obligation{Name: nm + "#missing", Kind: "guard", Fn: c.Key, Props: c.Props, Pos: x.em.Mark(),
+				Goal: "true", Expect: "unsat", Clause: g.Src + "   [no call of " + g.Name + " in the function any more]", em: x.em, Only: g.Only,
+				Result: "unknown", Solver: "syntactic", Output: "the guarded call site no longer exists"})
 		}
 	}
 	res.Obls = x.obls
